@@ -265,8 +265,8 @@ def run_case(c):
             obs.fail(f"{tag}|ws-stream-not-plain", f"first bytes {rec['first']!r}")
     if secure and rec is not None and rec["sni"] is not None or (secure and rec is not None and rec["tls_ok"]):
         want_sni = c["server_hostname"] or c["host"]
-        if want_sni.replace(".", "").isdigit():
-            want_sni = None
+        if want_sni.replace(".", "").isdigit() or ":" in want_sni:
+            want_sni = None  # no SNI for IP literals
         if rec["sni"] != want_sni and not (rec["sni"] is None and not rec["tls_ok"] and exp != "accept"):
             obs.fail(f"{tag}|sni", f"SNI {rec['sni']!r}, expected {want_sni!r}; cfg={c}")
     active = secure and (exp == "config-error" or not c["trust"] == "ctx-unverified" and not (c.get("cert_reqs") == "NONE"))
@@ -361,6 +361,12 @@ def configs():
                            "server_hostname": sh, "env": None}
 
 
+    # server_hostname may be an IP literal (an IPv6 one starts with a colon): it still replaces the URL host for the name check
+    for cert in ("good", "other"):
+        for sh in ("::1", "127.0.0.1", "::ffff:127.0.0.1"):
+            for trust, cr, ch in (("ca_certs=testca", None, None), ("ca_certs=testca", None, False), ("ca_certs=testca", "NONE", None), ("none", None, None)):
+                for proxy in (False, True):
+                    yield {"scheme": "wss", "host": "localhost", "cert": cert, "proxy": proxy, "trust": trust, "cert_reqs": cr, "check_hostname": ch, "server_hostname": sh, "env": None}
     # the same options through WebSocketApp.run_forever(sslopt=...)
     for cert in ("good", "other", "rogue"):
       for api in ("app", "create_connection"):
